@@ -20,7 +20,7 @@ import (
 // a fresh process with default flags reads from the file through the table's definition as the procedure left it;
 // files that were not addressed keep their bytes; no other file appears.
 func init() {
-	c01AttrRule = "family attributes: 10 table layouts (CSV, CSV without header, semicolon, CRLF, TSV, LTSV, JSON, JSON Lines, fixed-length multi-line and single-line; by name or through a table function) x 4 data-changing statements x " +
+	c01AttrRule = "family attributes: 10 table layouts (CSV, CSV without header, semicolon, CRLF, TSV, LTSV, JSON, JSON Lines, fixed-length multi-line and single-line; by name or through a table function) x 6 data-changing statements (incl. a value too wide for a fixed-length column and the deletion of every row) x " +
 		"26 session flags (every export flag, set before the table is loaded or after the change; every import flag, set after the change) and 11 ALTER TABLE ... SET attributes (before or after the change); " +
 		"oracle: a fresh process reads back, through the table's definition as the procedure left it, exactly the rows the procedure last saw; an unaddressed file keeps its bytes"
 	core.Extend("C01", c01AttrRule, func(c *core.Ctx) { c01AttrRun(c, "C01") })
@@ -53,6 +53,9 @@ var c01AttrStmts = []string{
 	"INSERT INTO %[1]s VALUES (4, 'w')",
 	"DELETE FROM %[1]s WHERE %[2]s = 1",
 	"REPLACE INTO %[1]s (%[2]s, %[3]s) USING (%[2]s) VALUES (3, 'r'), (5, 'v')",
+	// a value wider than a fixed-length column (the commit of such a table is refused and the file stays), no row left
+	"UPDATE x SET %[3]s = 'wide-value' FROM %[1]s AS x WHERE %[2]s = 2",
+	"DELETE FROM %[1]s",
 }
 
 type c01AttrFlag struct {
@@ -268,6 +271,10 @@ func c01AttrOne(c *core.Ctx, dir string, k c01AttrCase) {
 	where := fmt.Sprintf("table %s (%s), procedure %q, then COMMIT; the file now holds %q and is read by a fresh process as %s", k.Table, t.Expr, k.Prog, clip(snap[t.File]), k.ReadAs)
 	if err != nil {
 		c.Violate("attributes:committed-file-unreadable:"+k.Table+":"+c01AttrKind(k.Prog), where+": "+err.Error(), k)
+		return
+	}
+	if strings.HasSuffix(seen, "|") && strings.HasSuffix(got, "|") && (strings.HasPrefix(k.Table, "json") || strings.HasPrefix(k.ReadAs, "JSON(") || strings.HasPrefix(k.ReadAs, "LTSV(")) {
+		// a JSON or LTSV file without a record has no place for the column names: no rows read back as no rows
 		return
 	}
 	if got != seen {
